@@ -26,6 +26,12 @@ CHECKS = {
          'Every request of a seeded history is executed by the real service and by a small reference model written from the API reference; status, error code, body and the complete stored state are compared after every step, plus cross-view read bursts.', '3/C11'),
  'C12': ('exploration', 'seeded history simulation + consumer<=>allocations invariant',
          'Seeded consumer life-cycle histories in all four microversion bands with random incomplete-consumer ids; consumer <=> allocations invariant after every request, attributes against the model, null-generation follow-up writes.', '3/C12'),
+ 'C17': ('fault_enumeration', 'single-fault enumeration at every SQL statement and commit (DBAPI-seam fault injector) + twin/pre-state oracle',
+         'For each corpus entry (a generated write request in a generated state, all write routes, plus start-up synchronisation from empty/partial/synced databases) a dry run records every SQL statement and commit; the request is then re-executed once per (ordinal, fault kind): retryable deadlock with and without database-side rollback, duplicate-key race, lost connection, generic error, failed commit. Outcome must be applied-exactly-once (== fault-free twin) or a clean failure (== pre-state, well-formed JSON error), inside the must-retry windows it must be the twin; afterwards the same request re-issued fault-free must behave like the twin. Thorough adds pairs of faults.', '3/C17'),
+ 'C18': ('fault_enumeration', 'crash-point enumeration (thread frozen, connections rolled back) + invariants on the surviving state',
+         'Same corpus; the worker dies before every statement and before/after every commit (the request thread is frozen for ever, its connections rolled back and closed). The surviving state must satisfy capacity, referential and forest invariants, be wholly the pre-state or wholly the complete result apart from auxiliary records and consumers without allocations, and the restarted service must serve a probe.', '3/C18'),
+ 'C19': ('exploration', 'seeded histories of name operations with simulated restarts from empty/partial/synced databases',
+         'Histories of trait / resource-class create, rename, delete requests with legal, illegal, boundary-length and standard names, interleaved with simulated restarts, starting from an empty, partially synchronised (random subset of standard names missing) or fully synchronised database; standard-set/identifier/name invariants after every step, restart idempotence, plus start-up sync under faults.', '3/C19'),
 }
 
 NOTE = ('Trusted: CPython, SQLite, SQLAlchemy, oslo.*, webob, Routes, jsonschema as installed; the simulator (psim) and, where used, the reference model psim/model.py. '
